@@ -57,11 +57,12 @@ func appendLine(path, line string) {
 }
 
 func (s *occServer) cur() string {
-	if s.beh.StartState != "" && s.state == "STANDBY" {
-		return s.beh.StartState
-	}
+	// the gate first: a device that starts in a wrong state shows it only once it is "ready"
 	if s.beh.ReadyGate && !exists(filepath.Join(s.dir, "ready")) {
 		return "INITIALIZING"
+	}
+	if s.beh.StartState != "" && s.state == "STANDBY" {
+		return s.beh.StartState
 	}
 	return s.state
 }
